@@ -297,8 +297,10 @@ Print Assumptions C13_member_dial_outside_group_lock.
    rotation like a GET; the endpoint chosen for a request is part of the backend-connection pool key *)
 Theorem C13_http_group_request_path_matches_model :
   sll_eqb http_proxy_run_group_blocks expected_run_group_blocks = true /\
-  sl_eqb vhost_http_group_facts expected_vhost_http_group_facts = true.
-Proof. vm_compute. split; reflexivity. Qed.
+  sl_eqb vhost_http_group_facts expected_vhost_http_group_facts = true /\
+  (* the endpoint id handed to the transport is per join (name#joinseq) *)
+  sl_eqb http_group_endpoint_facts expected_http_group_endpoint_facts = true.
+Proof. vm_compute. repeat split; reflexivity. Qed.
 Print Assumptions C13_http_group_request_path_matches_model.
 
 (* a request (GET or CONNECT) on an http group route goes to a name registered in the object that owns
